@@ -306,7 +306,6 @@ class Client(object):
 
         """
         mailfrom = Reply(command=b'MAIL')
-        self.reply_queue.append(mailfrom)
 
         command = b''.join((b'MAIL FROM:<', self._encode(address), b'>'))
         if data_size is not None and 'SIZE' in self.extensions:
@@ -314,6 +313,8 @@ class Client(object):
         if auth is not None and 'AUTH' in self.extensions:
             authed = b'<>' if auth is False else self._xtext(auth)
             command += b' AUTH=' + authed
+        # A reply is owed only once the command could be built and is sent.
+        self.reply_queue.append(mailfrom)
         self.io.send_command(command)
 
         if 'PIPELINING' not in self.extensions:
@@ -334,9 +335,9 @@ class Client(object):
 
         """
         rcptto = Reply(command=b'RCPT')
-        self.reply_queue.append(rcptto)
 
         command = b''.join((b'RCPT TO:<', self._encode(address), b'>'))
+        self.reply_queue.append(rcptto)
         self.io.send_command(command)
 
         if 'PIPELINING' not in self.extensions:
